@@ -130,6 +130,21 @@ def line_cases(rng, w):
     d = pad_to("#define AAA \"", w - 1, "s")
     if d:
         out.append((d + "\"\n", 1, "define"))
+    # continuation lines: a string / a block comment / a `//` comment continued with a line splice
+    # (the splice is INSIDE a token), and a splice between two tokens; the measured line is the second
+    k = pad_to("", w - 2, "x")
+    if k is not None:
+        out.append(("char\t*g_s = \"abc\\\n" + k + "\";\n", 2, "string-continuation"))
+        out.append(("char\t*g_s = \"abc??/\n" + k + "\";\n", 2, "string-continuation-trigraph"))
+    k2 = pad_to("", w, "c")
+    if k2 is not None:
+        out.append(("// abc\\\n" + k2 + "\nint\tg_a;\n", 2, "line-comment-continuation"))
+    k3 = pad_to("", w - 3, "b")
+    if k3 is not None:
+        out.append(("/* abc\\\n" + k3 + " */\nint\tg_a;\n", 2, "block-continuation"))
+    k4 = pad_to("\t", w - 1, "1")
+    if k4 is not None:
+        out.append(("int\tg_v = \\\n" + k4 + ";\n", 2, "between-tokens-continuation"))
     return out
 
 
